@@ -81,6 +81,12 @@ pub fn check_origins_with(
         let same_piece = matches!((prev, next), (Some(a), Some(b)) if a.2 == b.2);
         let inside_expansion = same_piece && matches!(prev.unwrap().1, Prov::Expansion(_));
         let mut last: Option<(String, usize)> = None;
+        // when both neighbours were copied from the same file, in order, the trivia between them
+        // was copied from the stretch of that file that lies between them
+        let window: Option<(String, usize, usize)> = match (prev, next) {
+            (Some((lw, Prov::Copied(f1, o1), _)), Some((_, Prov::Copied(f2, o2), _))) if f1 == f2 && o1 + lw.len() <= *o2 => Some((f1.clone(), o1 + lw.len(), *o2)),
+            _ => None,
+        };
         for i in gb..ge {
             let got = origin(i);
             if inside_expansion {
@@ -109,6 +115,13 @@ pub fn check_origins_with(
                     if !byte_ok && !near_exp && !in_macro_body(f, *o) {
                         let sigv = if after_literal { Some(SIG_P1_ORIGIN.to_string()) } else { None };
                         return Err((sigv, format!("origin({}) = ({}, {}) but that file holds {:?} there, the output byte is {:?}", i, f, o, ft.as_ref().and_then(|t| t.get(*o..(*o + 1).min(t.len()))), &text[i..i + 1])));
+                    }
+                    if let Some((wf, wa, wb)) = &window {
+                        // (bytes of another file are possible: an include that contributes white space only)
+                        if f == wf && !(*o >= *wa && *o < *wb) && !in_macro_body(f, *o) {
+                            let sigv = if after_literal { Some(SIG_P1_ORIGIN.to_string()) } else { None };
+                            return Err((sigv, format!("origin({}) = ({}, {}) lies outside the stretch [{}, {}) of {} between the two neighbouring tokens", i, f, o, wa, wb, wf)));
+                        }
                     }
                     if let Some((lf, lo)) = &last {
                         // (an expansion that consists of white space only maps into its macro's body)
